@@ -3,9 +3,10 @@ from vlib.core import Case, hx
 
 ID = "C15"
 N = 0xFFFFFFFFFFFFFFFFFFFFFFFFFFFFFFFEBAAEDCE6AF48A03BBFD25E8CD0364141
+NEEDS_CLI = True
 RULE = ("ops sig.print / sig.parse: random and boundary scalars (1, 2, n-2, n-1 valid; 0, n, n+1, 2^256-1 invalid), both parities, "
         "printed text re-parsed with and without 0x, every length 0..140, mutation of each character class, upper/lower case, v bytes 0..255; "
-        "non-trivial = distinct text of length 128..134; judge = the statement's grammar (130 hex digits r‖s‖v, v in {27,28}, scalars in [1,n-1])")
+        "a random sample of the cases is re-run through every sub-command that reaches the same code (vlib/routes.py); non-trivial = distinct text of length 128..134; judge = the statement's grammar (130 hex digits r‖s‖v, v in {27,28}, scalars in [1,n-1])")
 EXHAUSTIVE_SWEEPS = {"quick": ["all lengths 0..140", "all 256 v bytes", "all 8x8 boundary scalar pairs x 2 parities"],
                      "thorough": ["all lengths 0..140", "all 256 v bytes", "all 8x8 boundary scalar pairs x 2 parities"]}
 BOUND = [0, 1, 2, N - 2, N - 1, N, N + 1, 2 ** 256 - 1]
@@ -61,10 +62,20 @@ def gen(rng, tier):
                 add(pre + body, "utf8-straddle")
     for t in ["0x0x" + good[2:], "0x0x0x" + good[2:], "0x" + good[2:] + "00", good[2:] + "00", "0x" + good[2:] + "0000", good + good[2:], "0x" + good[2:] + "1b", "00" + good[2:], "0x00" + good[2:]]:
         add(t, "overlong-or-doubled")
+    from vlib.core import perturb
+    for v in perturb(good, "0x") + perturb(good[2:]):
+        add(v, "perturbed")
     for t in ["", "0x", "0X" + good[2:], " " + good, good + " ", good + "\n", "0x0x" + good[2:], "1b", "0x1b"]:
         add(t, "malformed", nt=False)
+    from vlib import routes
+    cases += routes.add_routes(cases, rng, 80, tier)
     return cases
 
 
 def shrink_candidates(line):
     return []
+
+
+def run_cli(case):
+    from vlib import cli
+    return cli.run_cli(case)
